@@ -32,11 +32,17 @@ structure VoteC where
   blk : Nat
   ps : Nat
   ts : Int
+  ntsCnt : Nat := 0      -- NTS vote count in the part-set app data (block votes)
 deriving DecidableEq, Repr
 
+/-- A vote message: `c` is exactly what the signature covers (`blockVoteByteser.bytes()`:
+    `blockVoteBase` = height, round, type, BlockID, BlockPartSetIDAndNTSVoteCount, plus Timestamp).
+    `u` stands for everything a `VoteMessage` carries outside the signed payload: the NTS vote
+    bases (network type id + section hash) and the NTS proof parts. -/
 structure Vote where
   signer : Nat
   c : VoteC
+  u : Nat := 0
 deriving DecidableEq, Repr
 
 /-- signed content of a proposal -/
